@@ -92,7 +92,7 @@ def _corpus_big():
     ]
 
 
-def gen_sequence(rng):
+def gen_sequence(rng, s_after_close=False):
     n = rng.range(3, 16)
     limit = rng.choice([0, 1, 1, 2, 3, 100000, 100000])
     ops, nf, nx, waiting = ["L%d" % limit], 0, 0, []
@@ -133,8 +133,9 @@ def gen_sequence(rng):
             ops.append("g%d:%d" % (nf, nx))
             waiting.append(nf)
             nf += 1 + rng.below(2)
-        elif k < 65 and not closed:
-            # supervisor event (mode-2 push); not after a close: janet_loop1 would panic "cannot write to closed channel"
+        elif k < 65 and (not closed or s_after_close):
+            # supervisor event (mode-2 push); after a close only on trees where janet_loop1 skips the push (repo 046c08b) -
+            # before that fix the push panicked outside any fiber ("cannot write to closed channel")
             nx += 1
             ops.append("s%d:%d" % (nf, nx))
             nf += 1 + rng.below(2)
